@@ -118,7 +118,7 @@ TECH_ADD = {
  "C01": "; one case in four edits the message after building (UnsetAll*/SetAttachments/SetEmbeds with permuted or shortened lists, Part.Delete/SetContentType/SetCharset/SetContent/SetWriteFunc, SetBoundary) with the model following, one in four renders the same Msg a second time; RFC 2231 extended file-name parameters are decoded and judged like the plain ones; message charsets through WithCharset; files from an embed.FS",
  "C02": "; the deprecated SetHeader/SetHeaderPreformatted aliases; RFC 2231 extended parameters judged like the plain ones",
  "C03": "; file-system sources whose Read fails after a successful Open (a directory in place of the file, a caller's fs.FS reporting an error mid-way)",
- "C05": "; invisible and space runes (U+00A0, U+3000, U+200B, U+FEFF) in quoted local parts",
+ "C05": "; invisible and space runes (U+00A0, U+3000, U+200B, U+FEFF) in quoted local parts; the exported smtp.Client API driven directly with raw strings (Hello, Verify, SetDSN*Option, Mail, Rcpt) against a command-sequence oracle",
  "C06": "; blind copies for the mailbox of a visible recipient (also in another capitalisation)",
  "C07": "; authentication replaced through SetSMTPAuth/SetSMTPAuthCustom after a password-revealing one; a second DialWithContext without closing the first connection, which is judged under the tightened policy from that moment on",
  "C08": "; the signer configured again between two renders (other key type, intermediate added/dropped, same pair)",
